@@ -146,3 +146,22 @@ _ADDED = {
 }
 for _pid, _t in _ADDED.items():
     CLAIMS[_pid]["text"] += " Also decided: " + _t
+
+_ADDED6 = {
+    "C01": "sub-window bounds of the bit blocks (R-SUBWINDOW); has_x() hard-coded true only for a constant-true condition (R-CONSTPRESENT); case constants fit the switch operand (R-SWITCHFIT); Choice instantiated with IntermediateT == ResultT (R-CHOICETYPE).",
+    "C02": "both preprocessor variants of the generic byte accessors, read side (R-BYTEPATH); the three byte orderers report the same buffer state (R-MIRROR); sub-window bounds (R-SUBWINDOW).",
+    "C03": "write side of both accessor variants (R-BYTEPATH); write-through virtual fields test presence and their static range before the inverse transform (R-VWRITE); BcdView write methods take the caller's integer type (R-NARROWARG, repaired).",
+    "C04": "no pointer is formed past the buffer in GetOffsetStorage (R-CLAMP); Null orderer reports the buffer's size (R-MIRROR).",
+    "C05": "existence function looks up the last path component (R-PATHEND).",
+    "C06": "enum text reader is the exact inverse of the writer (R-ENUMTEXT); float text precision and buffer (R-FLOATTEXT); text reader of write-through virtual fields matches their kind (R-TEXTPAIR); [text_output] carried to anonymous-bits aliases (R-ALIASATTR).",
+    "C07": "text methods of virtual views take the options by const reference (R-TEXTSIG); R-TEXTPAIR, R-SWITCHFIT, R-CHOICETYPE; storage classes provide every method generated views call on them (R-STORAGEIFACE).",
+    "C10": "both pattern tables are tried completely at every offset (R-TOKTIE).",
+    "C12": "scope chains extend the inherited list (R-SCOPECHAIN); the head of a field reference cannot be a module (R-REFHEAD).",
+    "C13": "every typing function types its expression on every exit (R-TYPEANNOT); kind guards before helpers ending in assert False (R-PRECOND); oneof members read under a guard (R-ONEOFGUARD); the prelude Flag is recognised by module and path (R-CANONNAME); reviewed skips still present (R-SKIPLOSS converse).",
+    "C14": "validator/getter agreement for attribute values (R-ATTRAGREE); back-end qualifier respected by every lookup (R-ATTRBACKEND); Null byte order truth table (R-NULLORDER); array element sizes, bits-typed fields and negative locations rejected where the back end relies on it (R-ELEMSIZE, R-BITSFIELD, R-NEGLOC); type rules reach array element types (R-TYPEREACH).",
+    "C16": "Field-only attributes read under isinstance (R-REFKIND); no constancy assertion before the constancy check (R-EARLYASSERT, R-CONSTNONE); int() of bounds under an infinity test (R-INFGUARD); R-TYPEANNOT, R-PRECOND, R-ONEOFGUARD, R-REFHEAD, R-ATTRAGREE, R-ATTRBACKEND, R-ELEMSIZE, R-ANONHOME.",
+    "C18": "options reach the shared entry points verbatim (R-DRIVERFLAGS).",
+    "C20": "TryToCopyFrom tests exactly the four documented conditions (R-COPY); bit storages implement the copy methods (R-STORAGEIFACE).",
+}
+for _pid, _t in _ADDED6.items():
+    CLAIMS[_pid]["text"] += " Round 6: " + _t
